@@ -5,6 +5,7 @@ import (
 	"bytes"
 	"context"
 	"fmt"
+	"html"
 	"io"
 	"io/fs"
 	"regexp"
@@ -199,9 +200,19 @@ func (m *Markdown) renderParagraph(w io.Writer, n *ast.Paragraph, src []byte) er
 // renderFencedCodeBlock renders a fenced code block with optional language.
 func (m *Markdown) renderFencedCodeBlock(w io.Writer, n *ast.FencedCodeBlock, src []byte) error {
 	return m.renderTemplate(w, "code_block", map[string]any{
-		"language": string(n.Language(src)),
+		"language": infoString(n.Language(src)),
 		"code":     codeBlockContent(n, src),
 	})
+}
+
+// infoString resolves backslash escapes and character references in a code fence info string
+// (CommonMark treats it like text), using goldmark's writer and undoing its HTML escaping.
+func infoString(b []byte) string {
+	var buf bytes.Buffer
+	bw := bufio.NewWriter(&buf)
+	gmhtml.DefaultWriter.Write(bw, b)
+	_ = bw.Flush()
+	return html.UnescapeString(buf.String())
 }
 
 // renderCodeBlock renders an indented code block.
